@@ -8,7 +8,8 @@ CONSTANTS MaxLen,      \* longest token string of the single-field families (bas
           MlLen,       \* ... in the multi-line forms
           PairLen,     \* longest token string of the user x password product family
           WizLen,      \* longest value of the wizard family
-          RowMode      \* "full": the whole product of the start-up table; "pairs": see MCRows
+          RowMode,     \* "full": the whole product of the start-up table; "pairs": see MCRows
+          PemOff       \* how many other dimensions vary around a base row that has a generated certificate / key file (0..1)
 
 --------------------------------------------------------------------------
 (* credentials files *)
@@ -99,18 +100,53 @@ MCFiles == FamB64 \cup FamUser \cup FamPass \cup FamPairs \cup FamMulti \cup Fam
 --------------------------------------------------------------------------
 (* start-up rows *)
 
-AllRows == [ creds : { "absent", "one" }, listen : DOMAIN Listen, protos : ProtoChoices,
-             hosts : DOMAIN Hosts, rp : DOMAIN Rp, rules : { "absent", "valid" } ]
+Vals == [ creds |-> { "absent", "one" }, listen |-> DOMAIN Listen, protos |-> ProtoChoices,
+          hosts |-> DOMAIN Hosts \ PemHostNames, rp |-> DOMAIN Rp, rules |-> { "absent", "valid" } ]
 
 \* quick tier: every value of every dimension against every value of every other one, two at a time,
-\* around each of two base rows (all rows with at most two dimensions off the base)
+\* around each of two base rows (all rows with at most two dimensions off the base).  The second base row has
+\* every optional section present and valid, so every refusal cause also occurs next to each other section.
 BaseRows == { [ creds |-> "one", listen |-> "any4", protos |-> { "http1", "http2" }, hosts |-> "ok1", rp |-> "absent", rules |-> "absent" ],
               [ creds |-> "absent", listen |-> "lo4", protos |-> { "quic" }, hosts |-> "okAll", rp |-> "valid", rules |-> "valid" ] }
 Dims == { "creds", "listen", "protos", "hosts", "rp", "rules" }
 Off(r, b) == Cardinality({ d \in Dims : r[d] # b[d] })
-PairRows == { r \in AllRows : \E b \in BaseRows : Off(r, b) <= 2 }
+\* (one set constructor per row set: TLC builds a UNION of many small sets with a linear membership search)
+DimVals(ds) == UNION { { << d, v >> : v \in Vals[d] } : d \in ds }
+Around(b, ds) ==    \* the rows that differ from b at most in two of the dimensions ds
+    LET DV == DimVals(ds) IN { [ [ b EXCEPT ![p[1]] = p[2] ] EXCEPT ![q[1]] = q[2] ] : p \in DV, q \in DV }
+\* (the row sets take a dummy argument: every TLC worker evaluates every zero-argument constant definition when it starts,
+\* needed or not; with an argument they are evaluated where they are used - once, for the initial states)
+PairRows(u) == UNION { Around(b, Dims) : b \in BaseRows }
+\* the generated certificate / key files (single main host): in each base row, and with PemOff other dimensions varied
+PemRows(u) == IF PemOff = 0 THEN { [ b EXCEPT !.hosts = n ] : b \in BaseRows, n \in PemHostNames }
+           ELSE LET DV == DimVals(Dims \ { "hosts" }) IN
+                { [ [ b EXCEPT !.hosts = n ] EXCEPT ![p[1]] = p[2] ] : b \in BaseRows, n \in PemHostNames, p \in DV }
 \* thorough: the full product over the core host files, plus the pairwise rows for the generated host files
-MCRows == IF RowMode = "full" THEN { r \in AllRows : r.hosts \in CoreHostNames } \cup PairRows ELSE PairRows
+FullRows == [ creds : Vals.creds, listen : Vals.listen, protos : Vals.protos, hosts : CoreHostNames, rp : Vals.rp, rules : Vals.rules ]
+MCRows(u) == (IF RowMode = "full" THEN FullRows ELSE {}) \cup PairRows(u) \cup PemRows(u)
+(* The rows are handed to the start-up machine here and not through `Rows <- MCRows` in the cfg: TLC evaluates a cfg
+   substitution before it has evaluated (and cached) the constant tables of Config (Hosts), which then get
+   recomputed at every reference.                                                                             *)
+MCStartSpec == StartInitIn(MCRows(0)) /\ [][StartNext]_vars
+
+(* Every refusal cause of the table occurs in a row in which every OTHER section is present and valid (and in one in
+   which they are all absent): a validate() that returns early because some other section is there cannot hide.  *)
+SettingsCauses(r) == (IF r.creds = "absent" /\ ~ Listen[r.listen].loopback THEN { "no-credentials" } ELSE {})
+                     \cup (IF r.protos = {} THEN { "no-protocol" } ELSE {})
+                     \cup (IF r.protos = { "absent" } THEN { "no-protocol-table" } ELSE {})
+                     \cup (IF ~ Rp[r.rp].valid THEN { "reverse-proxy" } ELSE {})
+HostsCauses(r) == (IF Hosts[r.hosts].dup THEN { "hosts-dup" } ELSE {}) \cup (IF Hosts[r.hosts].unloadable THEN { "hosts-unloadable" } ELSE {})
+AllCauses == { "no-credentials", "no-protocol", "no-protocol-table", "reverse-proxy", "hosts-dup", "hosts-unloadable" }
+OthersPresent(r, c) ==      \* every section the cause c is not about is there and valid
+    /\ c # "reverse-proxy" => (r.rp # "absent" /\ Rp[r.rp].valid)
+    /\ r.rules = "valid"
+    /\ c # "no-credentials" => r.creds = "one"
+    /\ c \notin { "no-protocol", "no-protocol-table" } => r.protos \notin { {}, { "absent" } }
+    /\ c \notin { "hosts-dup", "hosts-unloadable" } => (~ Hosts[r.hosts].dup /\ ~ Hosts[r.hosts].unloadable)
+OthersAbsent(r, c) == (c # "reverse-proxy" => r.rp = "absent") /\ r.rules = "absent"
+ASSUME SkipRules \/ LET R == MCRows(0) IN \A c \in AllCauses :
+          /\ \E r \in R : SettingsCauses(r) \cup HostsCauses(r) = { c } /\ OthersPresent(r, c)
+          /\ \E r \in R : SettingsCauses(r) \cup HostsCauses(r) = { c } /\ OthersAbsent(r, c)
 
 --------------------------------------------------------------------------
 (* rules files for the totality job (C09): every combination of missing / wrongly typed / odd fields.
@@ -139,7 +175,12 @@ ASSUME SkipRules \/ PrintT(<< "DEFAULTS", ToJson(DocumentedDefaults) >>)
 \* every hosts file on its own: TlsHostsSettings::builder()...build() and Core::reload_tls_hosts_settings
 ASSUME SkipRules \/ \A n \in DOMAIN Hosts :
           PrintT(<< "HOSTS", ToJson([ name |-> n, cls |-> Hosts[n].cls, hs |-> Hosts[n].hs, hoststoml |-> HostsText(Hosts[n].hs), expect |-> HostsVerdict(n),
-                                      dup |-> Hosts[n].dup, unloadable |-> Hosts[n].unloadable ]) >>)
+                                      expectBuilder |-> HostsBuilderVerdict(n), dup |-> Hosts[n].dup, unloadable |-> Hosts[n].unloadable ]) >>)
+
+\* the certificate / key files the hosts files name: text with placeholders for the harness's certificate and key
+ASSUME SkipRules \/ \A f \in DOMAIN PemText :
+          PrintT(<< "PEMFILE", ToJson([ name |-> f, text |-> PemText[f], secs |-> Pem[f].secs,
+                                        chain |-> ChainVerdict(f), key |-> KeyVerdict(f) ]) >>)
 
 --------------------------------------------------------------------------
 (* vector export *)
